@@ -17,7 +17,9 @@ def check(run, views, tier):
         "and explicit panic must be justified by that state. Functions are verified modularly: parameters start with bound 0. "
         "R-DISPATCH: all 256 tag bytes classified. R-LOOP: every loop consumes a tag byte per iteration or iterates a finite "
         "in-memory container; recursion outside the parser is structural. R-NOREC: no call cycle in the parse cone. R-DEPTH: the "
-        "collection stack grows only under a constant limit K <= 128 whose violation is an error.")
+        "collection stack grows only under a constant limit K <= 128 whose violation is an error; thorough tier: K times the sum of the "
+        "object-code frame sizes of every monomorphised function that mentions the recursive value type (an over-approximation of one "
+        "nesting level of any of the recursive families) plus 2 KiB fits in 1 MiB.")
     run.trusted = ["tables/panic.json lists the panicking preconditions of bytes 1.x / std used here", "third-party code does not panic on arguments satisfying its documented preconditions",
                    "read_exact allocates nothing itself; one element is at most 64 KiB (u16 length)"]
     run.not_decided = ["panics inside third-party functions on precondition-satisfying arguments", "allocator failure",
@@ -43,5 +45,22 @@ def check(run, views, tier):
         rr.r_stop_onlyexit(run, F)      # contributes the drive-loop progress clause (R-LOOP) and the exits
         rr.r_dispatch(run, F)
         rr.r_readexact(run, F)
-        gr.r_depth(run, F, T)
+        K = gr.r_depth(run, F, T)
         run.meta.setdefault("coverage_extra", {})["guard_sites"] = counts
+        if tier == "thorough" and cfg == sorted(views)[0]:
+            # O: object-code frame sizes -> stack budget of the recursive drop / clone / fmt / encode families
+            from .. import extract
+            try:
+                frames = extract.frame_sizes()
+            except extract.ExtractError as e:
+                run.ob("R-DEPTH", "frame sizes available", False, str(e)[:300], key="R-DEPTH|frames-unavailable")
+                frames = []
+            val = [(n, s) for n, s in frames if "ipp::value::IppValue" in n]
+            total = sum(s for _, s in val)
+            if frames and K is not None:
+                need = K * (total + 2048)
+                run.ob("R-DEPTH", "stack budget: K x (sum of all %d frames that mention IppValue + 2 KiB) <= 1 MiB" % len(val), need <= T["stack_budget_bytes"],
+                       "K=%d, frames sum to %d bytes: %d bytes needed, budget %d" % (K, total, need, T["stack_budget_bytes"]), key="R-DEPTH|stack-budget")
+                run.meta["coverage_extra"]["frame_sizes"] = {"functions_total": len(frames), "functions_mentioning_IppValue": len(val), "sum_bytes": total, "K": K,
+                                                              "largest": sorted(val, key=lambda x: -x[1])[:6]}
+            run.floor("R-DEPTH", len(val), 50, "monomorphised functions mentioning IppValue in the object code")
